@@ -130,6 +130,11 @@ def gen_spec(rng, nmax=300, dec=None, with_vel=None, force=None):
             rec['vel'] = [gen_coord(rng, cc if cc != 'widest' else 'random', w, d + 1) for _ in range(3)]
             # velocities have one more decimal in the same width: re-check they fit
             rec['vel'] = [v if fits(v, w, d + 1) else 0.0 for v in rec['vel']]
+            if rng.random() < 0.06:
+                rec['vel'] = [0.0, 0.0, 0.0]           # an atom at rest
+            elif rng.random() < 0.06:
+                # slow and negative: just above half a unit of the last written velocity decimal
+                rec['vel'][int(rng.integers(0, 3))] = -float(rng.choice([0.6, 1.0, 3.0, 9.0])) * 10.0 ** -(d + 1)
         records.append(rec)
     bcls = force.get('box') or BOX_CLASSES[int(rng.integers(0, len(BOX_CLASSES)))]
     box = gen_box(rng, bcls)
